@@ -99,7 +99,7 @@ PROPS = {
                 rule="base history vs the same history with denied / zero-quantity / invalid requests inserted at random positions and times (also under other limits); every base response must be unchanged; rejected requests must issue no store operation and create no entry"),
     "C05": dict(runs=[("core", "iso", dict(quick=400, thorough=6000))], proj=proj_resp, tags=["C05"],
                 rule="interleaved multi-key history (keys: empty, NUL, Unicode, 64 KiB, one-byte differences; 20-70% noise keys so the table grows and every cleanup trigger fires) vs the solo run of each key on a fresh limiter"),
-    "C06": dict(runs=[("core", "storeops", dict(quick=600, thorough=15000)), ("core", "hist", dict(quick=300, thorough=5000))], proj=proj_full, tags=["C06"],
+    "C06": dict(runs=[("core", "storeops", dict(quick=600, thorough=3000)), ("core", "hist", dict(quick=300, thorough=5000))], proj=proj_full, tags=["C06"],
                 rule="raw get/set-if-absent/compare-and-swap sequences on the three real stores in random (also degenerate) configurations, times straddling every cleanup trigger; snapshot of entries and scheduling state compared with the model after every operation; answers compared with an independent abstract expiring map"),
     "C07": dict(runs=[("core", "hist", dict(quick=800, thorough=15000)), ("core", "reclaim", dict(quick=150, thorough=3000))], proj=proj_lifetime, tags=["C07"],
                 rule="hist: lifetime of every store write within [E, 2*B*E]; reclaim: unbounded stream of fresh keys with a bounded active set on cleanup-enabled stores, after every guaranteed cleanup point (interval elapsed / operation budget / N-th write) no held entry is expired and the entry count is within the active set"),
@@ -379,30 +379,38 @@ def run_mode(pid, crate, mode, n, seed, prof, wdir, proj):
     r["wall_driver"] = round(time.time() - t1, 2)
     if p.returncode != 0:
         r["driver_error"] = p.stderr.decode(errors="replace")[-1000:]
-    ops = open(ops_p, errors="replace").read().split("\n")
-    imp = open(imp_p, errors="replace").read().split("\n")
-    mod = open(mod_p, errors="replace").read().split("\n")
-    r["lines"] = len(ops) - 1
-    last_new = 0
+    # streaming compare (the line files can be gigabytes in the thorough tier)
+    last_new_ctx = []      # lines since the last `snew`-like line (bounded)
     nmis = 0
-    for i in range(len(ops) - 1):
-        op = ops[i]
-        if op.startswith(("snew", "bnew", "cnew", "reset")):
-            last_new = i
-        a = proj(op, imp[i] if i < len(imp) else "<missing>")
-        if a is None:
-            continue
-        b = proj(op, mod[i] if i < len(mod) else "<missing>")
-        r["compared"] += 1
-        if a != b:
-            nmis += 1
-            if len(r["mismatches"]) < 3:
-                ctx = []
-                for j in range(last_new, i + 1):
-                    ctx.append(f"{ops[j]}    # impl: {imp[j] if j < len(imp) else ''}")
-                ctx.append(f"# MODEL answers the last line with: {mod[i] if i < len(mod) else '<missing>'}")
-                ctx.append(f"# compared under projection: impl={a!r} model={b!r}")
-                r["mismatches"].append(dict(index=i, op=op, impl=a, model=b, context=ctx))
+    i = -1
+    from itertools import zip_longest
+    with open(ops_p, errors="replace") as fo, open(imp_p, errors="replace") as fi, open(mod_p, errors="replace") as fm:
+        for i, (op, im, mo) in enumerate(zip_longest(fo, fi, fm)):
+            if op is None:
+                i -= 1
+                break
+            op = op.rstrip("\n")
+            im = im.rstrip("\n") if im is not None else "<missing>"
+            mo = mo.rstrip("\n") if mo is not None else "<missing>"
+            if op.startswith(("snew", "bnew", "cnew", "reset")):
+                last_new_ctx = []
+            if len(last_new_ctx) < 400:
+                last_new_ctx.append(f"{op}    # impl: {im}")
+            a = proj(op, im)
+            if a is None:
+                continue
+            b = proj(op, mo)
+            r["compared"] += 1
+            if a != b:
+                nmis += 1
+                if len(r["mismatches"]) < 3:
+                    ctx = list(last_new_ctx)
+                    if not ctx or not ctx[-1].startswith(op):
+                        ctx.append(f"{op}    # impl: {im}")
+                    ctx.append(f"# MODEL answers the last line with: {mo}")
+                    ctx.append(f"# compared under projection: impl={a!r} model={b!r}")
+                    r["mismatches"].append(dict(index=i, op=op[:2000], impl=a[:2000], model=b[:2000], context=ctx))
+    r["lines"] = i + 1
     r["n_mismatches"] = nmis
     # scratch hygiene: the line files can be hundreds of MB; keep them only when they are needed to debug
     if nmis == 0:
